@@ -5,11 +5,23 @@ import (
 	"strings"
 )
 
-var (
-	sanitizeSetPassword = regexp.MustCompile(`(?i)password\s+for[^=]*=\s+(["']?[^\s"]+["']?)`)
+const (
+	// Whitespace or a comment between two tokens.
+	sanitizeSep = `(?:\s|/\*[^*]*\*+(?:[^/*][^*]*\*+)*/|--[^\n\r]*(?:\r\n|\n|\r|$))`
 
-	sanitizeCreatePassword = regexp.MustCompile(`(?i)with\s+password\s+(["']?[^\s"]+["']?)`)
+	// A user name: a double-quoted identifier or a bare word.
+	sanitizeIdent = `(?:"(?:[^"\\\n]|\\.)*"|[^\s="]+)`
+
+	// The password: a quoted literal up to its closing quote (double quotes
+	// are a common mistake and are redacted too), or else a bare word.
+	sanitizeLiteral = `('(?:[^'\\\n]|\\.)*'|"(?:[^"\\\n]|\\.)*"|[^\s;]+)`
 )
+
+// sanitizePassword matches the password of SET PASSWORD FOR <user> = <password>
+// and of CREATE USER <user> WITH PASSWORD <password>. Both forms are handled
+// in one left-to-right pass so that text inside one password can never be
+// taken for the start of another clause.
+var sanitizePassword = regexp.MustCompile(`(?i)(?:\bpassword` + sanitizeSep + `+for` + sanitizeSep + `*` + sanitizeIdent + sanitizeSep + `*=|\bwith` + sanitizeSep + `+password)` + sanitizeSep + `*` + sanitizeLiteral)
 
 // Sanitize attempts to sanitize passwords out of a raw query.
 // It looks for patterns that may be related to the SET PASSWORD and CREATE USER
@@ -20,28 +32,18 @@ var (
 // This function works on the raw query and attempts to retain the original input
 // as much as possible.
 func Sanitize(query string) string {
-	if matches := sanitizeSetPassword.FindAllStringSubmatchIndex(query, -1); matches != nil {
-		var buf strings.Builder
-		i := 0
-		for _, match := range matches {
-			buf.WriteString(query[i:match[2]])
-			buf.WriteString("[REDACTED]")
-			i = match[3]
-		}
-		buf.WriteString(query[i:])
-		query = buf.String()
+	matches := sanitizePassword.FindAllStringSubmatchIndex(query, -1)
+	if matches == nil {
+		return query
 	}
 
-	if matches := sanitizeCreatePassword.FindAllStringSubmatchIndex(query, -1); matches != nil {
-		var buf strings.Builder
-		i := 0
-		for _, match := range matches {
-			buf.WriteString(query[i:match[2]])
-			buf.WriteString("[REDACTED]")
-			i = match[3]
-		}
-		buf.WriteString(query[i:])
-		query = buf.String()
+	var buf strings.Builder
+	i := 0
+	for _, match := range matches {
+		buf.WriteString(query[i:match[2]])
+		buf.WriteString("[REDACTED]")
+		i = match[3]
 	}
-	return query
+	buf.WriteString(query[i:])
+	return buf.String()
 }
